@@ -49,11 +49,12 @@ type ScriptConn struct {
 	Next [][][]byte
 	End  int // behaviour once Segs is exhausted
 
-	Out         []byte // everything written by the code under test
-	WriteFailAt int    // if >0: the write that would make len(Out) exceed this fails (bytes up to the limit are taken)
-	ShortWrite  int    // if >0: each Write accepts at most this many bytes (returns n<len, nil err is illegal for net.Conn, so we loop internally) -- unused
-	Closed      bool
-	CloseCount  int
+	Out           []byte // everything written by the code under test
+	WriteFailAt   int    // if >0: the write that would make len(Out) exceed this fails (bytes up to the limit are taken)
+	WriteFailOnce bool   // the write fault is transient (an expired write deadline): later writes succeed
+	ShortWrite    int    // if >0: each Write accepts at most this many bytes (returns n<len, nil err is illegal for net.Conn, so we loop internally) -- unused
+	Closed        bool
+	CloseCount    int
 
 	ReadCalls       int
 	WriteCalls      int
@@ -132,6 +133,9 @@ func (s *ScriptConn) Write(p []byte) (int, error) {
 			k = 0
 		}
 		s.Out = append(s.Out, p[:k]...)
+		if s.WriteFailOnce {
+			s.WriteFailAt = 0
+		}
 		return k, &net.OpError{Op: "write", Net: "tcp", Err: os.NewSyscallError("write", errors.New("broken pipe"))}
 	}
 	s.Out = append(s.Out, p...)
